@@ -10,8 +10,10 @@ import (
 	"encoding/binary"
 	"fmt"
 	"io"
+	"mime/multipart"
 	stdh "net/http"
 	"net/url"
+	"sort"
 	"strconv"
 	"strings"
 
@@ -619,9 +621,46 @@ func intendedView(q, form url.Values, hdr, params map[string]string, keys []stri
 type hIntended struct {
 	q, form     url.Values
 	hdr, params map[string]string
+	body        *rewindBody
+}
+
+// a form parser may stop reading before the stream reports EOF (multipart: at the closing boundary); the harness puts the stream
+// back to its start so that every later GetBody() sees the whole body, whatever was parsed before
+func (in *hIntended) rewind() {
+	if in != nil && in.body != nil {
+		in.body.pos = 0
+	}
+}
+
+// How the request reaches the library: a form value is a form value whatever carries it.
+//   ctor: 0 NewHTTPRequestFromStdReq, 1 NewHTTPRequestFromUrl (+ headers set on the embedded request), 2 a hand-built HTTPRequest
+//   formCT (form bodies): 0 `application/x-www-form-urlencoded`, 1 with `; charset=UTF-8`, 2 mixed case + parameter, 3 multipart/form-data
+type hCarrier struct{ ctor, formCT int }
+
+// the carrier of the requests being built (set per generated request by c17Request; the same for every converter run on it)
+var c17Carrier hCarrier
+
+// the body map of a form request is the post form only when the constructor's exact content-type switch recognises the body
+func (c hCarrier) bodyMapIsForm() bool { return c.formCT == 0 }
+
+func multipartBody(form url.Values) ([]byte, string) {
+	var b bytes.Buffer
+	w := multipart.NewWriter(&b)
+	w.SetBoundary("verifboundary7MA4YWxkTrZu0gW")
+	keys := make([]string, 0, len(form))
+	for k := range form {
+		keys = append(keys, k)
+	}
+	sort.Strings(keys)
+	for _, k := range keys {
+		w.WriteField(k, form.Get(k))
+	}
+	w.Close()
+	return b.Bytes(), w.FormDataContentType()
 }
 
 func buildRequest2(pops []hPop, bodyKind int, jbody []byte, uriPath string) (*http.HTTPRequest, *hIntended, error) {
+	carrier := c17Carrier
 	q := url.Values{}
 	form := url.Values{}
 	for _, p := range pops {
@@ -643,27 +682,37 @@ func buildRequest2(pops []hPop, bodyKind int, jbody []byte, uriPath string) (*ht
 	var body io.Reader
 	method := "GET"
 	var raw []byte
+	formCT := "application/x-www-form-urlencoded"
 	switch bodyKind {
 	case 1:
 		raw = []byte(form.Encode())
 		method = "POST"
+		switch carrier.formCT {
+		case 1:
+			formCT += "; charset=UTF-8"
+		case 2:
+			formCT = "Application/X-WWW-Form-Urlencoded; Charset=utf-8"
+		case 3:
+			raw, formCT = multipartBody(form)
+		}
 	case 2:
 		raw = jbody
 		method = "POST"
 	}
 	// a server-side request always has a non-nil Body (GetBody() dereferences it)
-	body = &rewindBody{data: raw}
+	rb := &rewindBody{data: raw}
+	body = rb
 	sr, err := stdh.NewRequest(method, u, body)
 	if err != nil {
 		return nil, nil, err
 	}
 	if bodyKind == 1 {
-		sr.Header.Set("Content-Type", "application/x-www-form-urlencoded")
+		sr.Header.Set("Content-Type", formCT)
 	} else if bodyKind == 2 {
 		sr.Header.Set("Content-Type", "application/json")
 	}
 	var params []http.Param
-	in := &hIntended{q: q, form: url.Values{}, hdr: map[string]string{}, params: map[string]string{}}
+	in := &hIntended{q: q, form: url.Values{}, hdr: map[string]string{}, params: map[string]string{}, body: rb}
 	if bodyKind == 1 {
 		in.form = form
 	}
@@ -679,12 +728,27 @@ func buildRequest2(pops []hPop, bodyKind int, jbody []byte, uriPath string) (*ht
 			in.params[p.Key] = p.Val
 		}
 	}
+	switch carrier.ctor {
+	case 1:
+		hr, err := http.NewHTTPRequestFromUrl(method, u, body, params...)
+		if err != nil {
+			return nil, nil, err
+		}
+		hr.Request.Header = sr.Header
+		return hr, in, nil
+	case 2:
+		hr := &http.HTTPRequest{Request: sr}
+		for _, p := range params {
+			hr.Params.Set(p.Key, p.Value)
+		}
+		return hr, in, nil
+	}
 	hr, err := http.NewHTTPRequestFromStdReq(sr, params...)
 	return hr, in, err
 }
 
 // what the getters of the request return for every key of the universe (the checker's view of the request)
-func requestView(req *http.HTTPRequest, keys []string) []string {
+func requestView(req *http.HTTPRequest, keys []string, in *hIntended) []string {
 	var trip []string
 	n := 0
 	for _, k := range keys {
@@ -712,7 +776,9 @@ func requestView(req *http.HTTPRequest, keys []string) []string {
 	}
 	out := []string{fi(n)}
 	out = append(out, trip...)
+	in.rewind()
 	out = append(out, fx(req.GetBody()), fs(req.GetUri()))
+	in.rewind()
 	return out
 }
 
